@@ -25,7 +25,9 @@ RULE += (
     "again and again and keeps awaiting). One program in five has with-blocks of AsyncContext subclasses "
     "(outcome compared); one unit awaits @deduplicate() functions (function / method, default / custom "
     "keygetter) under asyncio while the deduplication table is empty, holds an uncomputed task built earlier "
-    "for the same or another key, or saw the key computed earlier."
+    "for the same or another key, or saw the key computed earlier. In one program in three the hand-written "
+    "asyncio_fn twins return an asyncio.Task; the deduplicate unit also makes the synchronous-call probe "
+    "(RuntimeError expected)."
 )
 ASSUMPTIONS = ["the quantifier is restricted to what resolve_awaitables claims to support (no batch items, ErrorFuture, lazy Future, result(), scoped values); with-blocks of AsyncContext subclasses are included, compared by outcome"]
 UNIT_TIMEOUT = {"quick": 240, "thorough": 2400}
@@ -164,16 +166,32 @@ def run_dedup(res, inc, progress):
         inc("deduplicated_functions_awaited_under_asyncio")
         if stale is not None:
             inc("asyncio_runs_with_an_uncomputed_task_registered_for_the_key")
+        # ... and its plain synchronous call is refused with RuntimeError while asyncio mode is on
+        @A()
+        def prober(k):
+            try:
+                dd(k)
+                return "returned"
+            except RuntimeError:
+                return "RuntimeError"
+            except BaseException as e:
+                return "%s: %s" % (type(e).__name__, str(e)[:100])
+            yield
+
+        refused = outcome(lambda: asyncio.run(prober.asyncio(7)))
+        inc("sync_call_probes")
         problem = None
-        if got != want:
+        if refused != ("val", "RuntimeError"):
+            problem = {"synchronous_call_in_asyncio_mode": refused, "expected": "RuntimeError"}
+        elif got != want:
             problem = {"asyncio": got, "plain_call": want}
         elif before or after:
             problem = {"asyncio_mode_before": before, "after": after}
         if problem is not None and len(res["violations"]) < 4:
             res["violations"].append(
                 {
-                    "oracle": "asyncio-outcome-differs",
-                    "mechanism": "asyncio-outcome-differs/deduplicate",
+                    "oracle": "asyncio-outcome-differs" if "asyncio" in problem or "after" in problem else "sync-call-in-asyncio-mode-did-not-raise-RuntimeError",
+                    "mechanism": ("asyncio-outcome-differs" if "asyncio" in problem or "after" in problem else "sync-call-in-asyncio-mode-did-not-raise-RuntimeError") + "/deduplicate",
                     "detail": dict(problem, deduplication_table=table, shape=shape, body_fails=fail, custom_keygetter=keyed, method=method),
                     "case": {"mode": "dedup", "cases": [0, 1]},
                 }
